@@ -211,6 +211,15 @@ class C18(Harness):
             us.append({'fn': 'urlnormalize', 'len': L, 'prefix': 'file://'})
             us.append({'fn': 'normalizeURL', 'len': L, 'prefix': 'file:/'})
             us.append({'fn': 'normalizeURL', 'len': L, 'prefix': 'http://h/a'})
+        # long names: 20-40 concrete characters in front of the symbolic tail
+        for pre in ('file://localhost/srv/some dir/conf.d/', 'FILE:/srv/some%20dir/conf.d/site', 'file:///C:/Program Files/App/etc/',
+                    'http://host.example.org:8080/a/b/c.conf?x=1', 'C:\\Users\\someone\\etc\\site', 'relative/dir with blank/sub/',
+                    'zconfig+ext.v1:', '/abs/path/to/a/rather/deeply/nested/'):
+            for L in (1, 2, 3):
+                us.append({'fn': 'urlnormalize', 'len': L, 'prefix': pre})
+                us.append({'fn': 'isPath', 'len': L, 'prefix': pre})
+                us.append({'fn': 'normalizeURL', 'len': L, 'prefix': pre})
+                us.append({'fn': 'urljoin', 'len': L, 'prefix': pre})
         return us + self.incl_units(tier) + self.schemaref_units(tier) + self.tree_units(tier)
 
     # ---- %include references through the loader (instrumented urljoin / urldefrag)
